@@ -58,6 +58,32 @@ async def c10():
         await asyncio.sleep(0)
         if c.state != ConnectionState.CLOSED or c in net.peer_connections:
             return True, f'a cancelled connect() leaves the connection {c.state.name} and {"registered" if c in net.peer_connections else "unregistered"} for ever', {'scenario': 'cancelled-connect'}
+        # disconnected while the TCP connect is in flight (what Network.disconnect() does to a registered CONNECTING connection on stop()),
+        # then the connect completes
+        log.clear()
+        c = PeerConnection('10.255.255.1', 1, net, username='bob')
+        net.peer_connections.append(c)
+        late = FakeWriter()
+
+        async def slow_open(*a, **k):
+            await asyncio.sleep(0.05)
+            return asyncio.StreamReader(), late
+        with patch('asyncio.open_connection', slow_open):
+            t = asyncio.ensure_future(c.connect())
+            await asyncio.sleep(0.01)
+            await c.disconnect(CloseReason.REQUESTED)
+            try:
+                await t
+            except Exception:      # noqa
+                pass
+        await asyncio.sleep(0)
+        seq = [s for cc, s in log if cc is c]
+        if c.state != ConnectionState.CLOSED or ('CLOSED' in seq and seq.index('CLOSED') != len(seq) - 1) or not late.closed:
+            if c._reader_task:
+                c._reader_task.cancel()
+            return True, (f'disconnect() while connect() is in flight, then the TCP connect completes: reported {seq}, the connection ends {c.state.name}, '
+                          f'{"registered" if c in net.peer_connections else "unregistered"}, the socket opened afterwards is {"closed" if late.closed else "OPEN"}'), \
+                {'scenario': 'disconnect-during-connect'}
         # concurrent disconnects report once
         log.clear()
         c = wire_connection(PeerConnection('h', 1, net, username='bob'))
